@@ -20,6 +20,8 @@
 //	| B c        Heartbeat packet on c                         | X c  CloseConnection(c)
 //	| R c        RemoveControlConnection(c)                    | U c  clientRegistry.Unregister(c)
 //	| T c        RegisterTunnelConnection for c                | P c  peer breaks transport c (writes fail)
+//	| XF c / RF c / SF / BF c   = X / R / S / B while the cloud-control store is failing (DisconnectClientIfMatch,
+//	             DisconnectClient, EnsureClientOnline return an error); a cloud control is always configured
 //
 // obs   := cl (<conn> <clientID> <auth> <same> | - - - -){M}  cn (<clientID> <auth> | - -) <inS> <inT> <closed>){N}
 //
@@ -44,6 +46,8 @@ import (
 	"sync/atomic"
 	"time"
 
+	"tunnox-core/internal/cloud/models"
+	"tunnox-core/internal/cloud/stats"
 	"tunnox-core/internal/core/idgen"
 	corelog "tunnox-core/internal/core/log"
 	"tunnox-core/internal/core/storage"
@@ -106,9 +110,43 @@ type world struct {
 	panicMsg    atomic.Value
 	timedOut    atomic.Bool
 	streamRace  atomic.Bool // a panic inside StreamProcessor (Close racing WritePacket): not a registry fact
+	cc          *cloudCtl
 }
 
 type authH struct{ w *world }
+
+// ---- cloud-control double: every SessionManager in the harness has a cloud control configured;
+// while `fail` is positive its store is "down": DisconnectClientIfMatch / DisconnectClient /
+// EnsureClientOnline return an error (ops XF, RF, SF, BF = X, R, S, B under that fault).
+
+type cloudCtl struct{ fail atomic.Int64 }
+
+var errCloud = errors.New("verif: cloud control store unavailable")
+
+func (c *cloudCtl) GetPortMapping(string) (*models.PortMapping, error) { return nil, errCloud }
+func (c *cloudCtl) UpdatePortMappingStats(string, *stats.TrafficStats) error {
+	return nil
+}
+func (c *cloudCtl) GetClientPortMappings(int64) ([]*models.PortMapping, error) { return nil, nil }
+func (c *cloudCtl) TouchClient(int64)                                          {}
+func (c *cloudCtl) DisconnectClient(int64) error {
+	if c.fail.Load() > 0 {
+		return errCloud
+	}
+	return nil
+}
+func (c *cloudCtl) DisconnectClientIfMatch(int64, string, string) (bool, error) {
+	if c.fail.Load() > 0 {
+		return false, errCloud
+	}
+	return true, nil
+}
+func (c *cloudCtl) EnsureClientOnline(int64, string, string, string, string, string) error {
+	if c.fail.Load() > 0 {
+		return errCloud
+	}
+	return nil
+}
 
 func (a *authH) HandleHandshake(conn session.ControlConnectionInterface, req *packet.HandshakeRequest) (*packet.HandshakeResponse, error) {
 	if req.Token == "fail" {
@@ -155,6 +193,8 @@ func newWorld(n, m, capc int) *world {
 		w.tr[i] = &fconn{id: cid(i)}
 	}
 	sm.SetAuthHandler(&authH{w})
+	w.cc = &cloudCtl{}
+	sm.SetCloudControl(w.cc)
 	return w
 }
 
@@ -242,8 +282,8 @@ type op struct {
 
 func (o op) String() string {
 	switch o.k {
-	case "S":
-		return "S"
+	case "S", "SF":
+		return o.k
 	case "H", "HS":
 		return fmt.Sprintf("%s %d %d %s", o.k, o.a, o.b, o.t)
 	case "Q", "QS":
@@ -365,6 +405,11 @@ func (w *world) exec(o op, gated bool) {
 		if c < w.n {
 			w.kickEnd(c)
 		}
+	case "XF", "RF", "SF", "BF":
+		// the same operation while the cloud-control store is failing
+		w.cc.fail.Add(1)
+		defer w.cc.fail.Add(-1)
+		w.exec(op{k: o.k[:1], a: o.a}, gated)
 	case "S":
 		w.sm.VerifCleanupStale()
 	case "O":
@@ -484,8 +529,8 @@ func parseOps(toks []string) ([]op, []string) {
 	var ops []op
 	for len(toks) > 0 {
 		switch k := toks[0]; k {
-		case "S":
-			ops = append(ops, op{k: "S"})
+		case "S", "SF":
+			ops = append(ops, op{k: k})
 			toks = toks[1:]
 		case "H", "HS":
 			ops = append(ops, op{k: k, a: atoi(toks[1]), b: atoi(toks[2]), t: toks[3]})
@@ -496,7 +541,7 @@ func parseOps(toks []string) ([]op, []string) {
 		case "K", "Kb":
 			ops = append(ops, op{k: k, a: atoi(toks[1]), b: atoi(toks[2])})
 			toks = toks[3:]
-		case "Ke", "A", "F", "O", "B", "X", "R", "U", "T", "P":
+		case "Ke", "A", "F", "O", "B", "X", "R", "U", "T", "P", "XF", "RF", "BF":
 			ops = append(ops, op{k: k, a: atoi(toks[1])})
 			toks = toks[2:]
 		default:
@@ -538,7 +583,7 @@ func inUniverse(tc *tcase) bool {
 	chk := func(ops []op) {
 		for _, o := range ops {
 			switch o.k {
-			case "S":
+			case "S", "SF":
 			case "K", "Kb":
 				if o.a < 1 || o.a > tc.m { // the new connection id of a kick may be unknown (== n)
 					ok = false
@@ -737,14 +782,19 @@ func alphabet(n, m int, full bool) []op {
 			al = append(al, op{k: "HS", a: c, b: x, t: "t"})
 		}
 		al = append(al, op{k: "F", a: c}, op{k: "X", a: c}, op{k: "R", a: c}, op{k: "U", a: c}, op{k: "O", a: c}, op{k: "P", a: c})
+		al = append(al, op{k: "XF", a: c})
 		if full {
 			al = append(al, op{k: "HS", a: c, b: 0, t: "c"}, op{k: "QS", a: c, t: "c"}, op{k: "B", a: c}, op{k: "T", a: c})
+			al = append(al, op{k: "RF", a: c})
 		}
 	}
 	for x := 1; x <= m; x++ {
 		al = append(al, op{k: "K", a: x, b: 0}, op{k: "K", a: x, b: n})
 	}
 	al = append(al, op{k: "S"})
+	if full {
+		al = append(al, op{k: "SF"})
+	}
 	return al
 }
 
@@ -754,7 +804,7 @@ func canonical(seq []op, n int) bool {
 	for _, o := range seq {
 		c, x := -1, -1
 		switch o.k {
-		case "S":
+		case "S", "SF":
 		case "K", "Kb":
 			x = o.a
 			if o.b < n {
@@ -845,15 +895,15 @@ func randOp(r *vc.Rand, n, m int, accepted []bool) op {
 	case p < 64:
 		return op{k: "K", a: x, b: r.Intn(n + 1)}
 	case p < 69:
-		return op{k: "S"}
+		return op{k: vc.Pick(r, []string{"S", "S", "SF"})}
 	case p < 75:
 		return op{k: "O", a: c}
 	case p < 79:
-		return op{k: "B", a: c}
+		return op{k: vc.Pick(r, []string{"B", "B", "BF"}), a: c}
 	case p < 87:
-		return op{k: "X", a: c}
+		return op{k: vc.Pick(r, []string{"X", "X", "XF"}), a: c}
 	case p < 91:
-		return op{k: "R", a: c}
+		return op{k: vc.Pick(r, []string{"R", "R", "RF"}), a: c}
 	case p < 94:
 		return op{k: "U", a: c}
 	case p < 97:
@@ -919,13 +969,13 @@ func genPar(jobs *[]*job, r *vc.Rand, count int) {
 					threads[c%nth] = append(threads[c%nth], op{k: "HS", a: c, b: x, t: vc.Pick(r, []string{"c", "c", "c", "t"})})
 				case p < 55:
 					// teardown is what the connection's own read loop does when it ends
-					threads[c%nth] = append(threads[c%nth], op{k: "X", a: c})
+					threads[c%nth] = append(threads[c%nth], op{k: vc.Pick(r, []string{"X", "X", "XF"}), a: c})
 				case p < 65:
 					threads[t] = append(threads[t], op{k: "K", a: x, b: r.Intn(n + 1)})
 				case p < 75:
-					threads[t] = append(threads[t], op{k: "S"})
+					threads[t] = append(threads[t], op{k: vc.Pick(r, []string{"S", "S", "SF"})})
 				case p < 83:
-					threads[t] = append(threads[t], op{k: "R", a: c})
+					threads[t] = append(threads[t], op{k: vc.Pick(r, []string{"R", "R", "RF"}), a: c})
 				case p < 90:
 					threads[t] = append(threads[t], op{k: "U", a: c})
 				default:
